@@ -6,5 +6,9 @@ export CARGO_NET_OFFLINE=true
 (cd tools/translate && cargo build --release --offline)
 tools/translate/target/release/lv-translate "$(readlink -f repo-link)" lean/LoraVerif/Gen || true
 (cd lean && lake build LoraVerif lvdriver)
+# build every property's theorem module once, so that the quick checks start from compiled .olean files
+# (a module that does not build is reported by its own check, not here)
+MODS=$(python3 -c "import json,glob;print(' '.join(sorted({json.load(open(f))['lean_module'] for f in glob.glob('props/C*.json')})))")
+(cd lean && lake build $MODS) || true
 (cd harness && cargo build --release --offline)
 echo setup-done
